@@ -204,16 +204,17 @@ impl Cqueue {
     // when the select coroutine is done, check the panic status
     // if it's panicked, re throw the panic data
     fn check_panic(&self, id: usize) {
-        if self.is_panicking.load(Ordering::Relaxed) {
-            return;
-        }
-
         use generator::Error;
-        match self.selectors.lock().unwrap()[id]
+        // take the handle in its own statement, the lock must be released before we
+        // re-throw the panic or the unwinding would poison the mutex and the
+        // `lock().unwrap()` in the drop would panic again while unwinding
+        let handle = self.selectors.lock().unwrap()[id]
             .take()
-            .expect("join handler not set")
-            .join()
-        {
+            .expect("join handler not set");
+        // always join, also after a panic was already reported: the Done event is sent by
+        // the select coroutine itself while it's still running with a ref to this cqueue,
+        // only the join tells that it's really finished
+        match handle.join() {
             Ok(_) => {}
             Err(panic) => {
                 if let Some(err) = panic.downcast_ref::<Error>() {
@@ -222,7 +223,10 @@ impl Cqueue {
                         return;
                     }
                 }
-                self.is_panicking.store(true, Ordering::Relaxed);
+                // only the first panic is propagated
+                if self.is_panicking.swap(true, Ordering::Relaxed) {
+                    return;
+                }
                 panic::resume_unwind(panic);
             }
         }
@@ -294,6 +298,9 @@ impl Drop for Cqueue {
     // this would cancel all unfinished select coroutines
     // and wait until all of them return back
     fn drop(&mut self) {
+        // check it before any wait that could move us to another thread
+        let unwinding = std::thread::panicking();
+
         // first cancel all the select coroutines if they are running
         self.selectors
             .lock()
@@ -315,18 +322,32 @@ impl Drop for Cqueue {
         // unwinding the park in `poll` would return at once, so we would spin here).
         // with the cancel disabled we really block until all of them are finished,
         // the pending cancel is delivered at the next cancellation point of the owner.
-        // the guard also re-enables the cancel if `poll` re-throws a selector panic
+        // the guard also re-enables the cancel if we re-throw a selector panic
         let _g = CancelDisableGuard::new();
 
         // run the rest event
+        // a selector panic that `poll` re-throws here must not leave this drop while the
+        // other select coroutines are still running, so keep the first one, go on with
+        // the wait and re-throw it after all of them are finished
+        let mut panic = None;
         loop {
-            match self.poll(None) {
-                Ok(_) => {}
-                Err(_e @ PollError::Finished) => break,
-                _ => unreachable!("cqueue drop unreachable"),
+            match panic::catch_unwind(panic::AssertUnwindSafe(|| self.poll(None))) {
+                Ok(Ok(_)) => {}
+                Ok(Err(PollError::Finished)) => break,
+                Ok(Err(PollError::Timeout)) => unreachable!("cqueue drop unreachable"),
+                Err(p) => {
+                    panic.get_or_insert(p);
+                }
             }
         }
         // we are sure that all the coroutines are finished
+
+        if let Some(p) = panic {
+            // a second panic while unwinding would abort the process
+            if !unwinding {
+                panic::resume_unwind(p);
+            }
+        }
     }
 }
 
